@@ -14,7 +14,13 @@ ASSUMPTIONS = ['C locale (decimal point)', 'hand-written transliteration validat
                'python % formatting is correctly rounded (used by the verdict renderer)']
 TRUSTED_EXTRA = ['libc contract LibcPrintSpec (outputs of %d / %1.15g / %1.17g are zero-free and at most 25 bytes): hypothesis of the theorems, validated by execution']
 
-def corpus(ctx): return load_corpus(ctx['verif'], 'C09')
+def corpus(ctx):
+    cs = load_corpus(ctx['verif'], 'C09')
+    for c in cs:
+        a = c.line.split(' ')
+        if a[0] == 'prealloc':
+            c.info.update({'tree': tree_of_line(c.line, 4), 'n': int(a[1]), 'fmt': int(a[2]), 'tid': 'corpus|' + ' '.join(a[2:])})
+    return cs
 
 def sweep(cases, tree, rng, tag, extra=16, fmts=(1, 0), pats=None):
     line = pline(tree)
@@ -34,7 +40,7 @@ def generate(ctx):
     lt = last_token_trees()
     if quick: lt = [t for i, t in enumerate(lt) if i % 8 in (0, 1, 4, 5) or rng.random() < 0.25]
     for t in lt: sweep(cases, t, rng, 'last-token', fmts=((1, 0) if not quick else (rng.choice([0, 1]),)))
-    ntrees = 60 if quick else 5000
+    ntrees = 120 if quick else 5000
     for i in range(ntrees):
         wf = rng.random() < 0.8
         t = rand_tree(rng, depth=rng.choice([1, 2, 2, 3]), wf=wf, width=3)
